@@ -284,6 +284,10 @@ async fn prepare(req: &mut Request, ccx: &CallContext<'_>) -> S3Result<Prepare> 
 
         let hs = extract_headers(&req.headers)?;
         let mime = extract_mime(&hs)?;
+        // A form upload (POST object) is addressed to a bucket. POST on an object (CreateMultipartUpload,
+        // CompleteMultipartUpload, RestoreObject, SelectObjectContent) is an ordinary request,
+        // whatever content type the object has.
+        let mime = mime.filter(|_| !(req.method == Method::POST && matches!(s3_path, S3Path::Object { .. })));
         let decoded_content_length = extract_decoded_content_length(&hs)?;
 
         let body_changed;
